@@ -244,6 +244,9 @@ def inline_cases(tier):
         cases.append({"what": "download", "sync": sync, "sizes": [6 * MiB, 6 * MiB, 6 * MiB], "frame": 16384})
         # padding counts against the flow-control windows: 66,500 frames of 1 data octet + 255 padding octets use up more than the client's
         # up-front credit (2^24 + 65,535) although the body is tiny; the peer only sends what it has credit for
+        # a long-lived connection: 700 small responses, each arriving whole (END_STREAM in the same read as all of its DATA), 28 MB in total - more
+        # than the client's connection-level credit, so the credit for such frames has to come back too
+        cases.append({"what": "download", "sync": sync, "sizes": [40000] * 700, "frame": 16384})
         cases.append({"what": "download", "sync": sync, "sizes": [66500], "frame": 1, "pad": 255})
         cases.append({"what": "download", "sync": sync, "sizes": [3 * MiB, 3 * MiB], "frame": 8192, "pad": 200})
         if tier == "thorough":
@@ -297,7 +300,8 @@ def execute_inline(case) -> Outcome:
             await pool.aclose()
 
         run_async(go())
-    desc = (f"[{'sync' if case['sync'] else 'async'}] downloads of {case['sizes']} bytes on one connection"
+    sizes_txt = str(case["sizes"]) if len(case["sizes"]) <= 6 else f"{len(case['sizes'])} x {case['sizes'][0]}"
+    desc = (f"[{'sync' if case['sync'] else 'async'}] downloads of {sizes_txt} bytes on one connection"
             + (f" in DATA frames of {case['frame']} octets + {case['pad']} padding octets" if case.get("pad") else ""))
     for i, out in enumerate(outs):
         if out["exc"] is not None:
